@@ -722,6 +722,11 @@ def _typed_case(case, cwd):
                 chan("print_config")
                 if cls == "reparse-rejected" and shape in SUB_SHAPES and _unnamed_subcommand_root_cause(mk().parse_string, text, c_argv, drop, "skip_null" in flags):
                     cls = CLS_UNNAMED_SUBCOMMAND
+                if cls and "skip_default" in flags and not cls.startswith("reparse-") and _dict_items_root_cause(mk(), c_argv, detail, drop):
+                    # same root cause as in dump(skip_default=True): the items of a dict VALUE are compared with the
+                    # items of the default dict (the configuration built from the command line may order the items
+                    # differently from the one the dump channel was given, so that channel need not have deviated)
+                    cls = "dict-valued-argument:items-compared-with-default-items"
                 detail = f"args {argv!r} printed {text!r}: {detail}"
                 alias = cls
                 if cls == DECIMAL_VIA_FLOAT:
